@@ -1,23 +1,32 @@
 import Tsg.Driver.Ops
+import Tsg.Driver.Fn
 
 open Driver
 
-def handle (req : Sexp) : Sexp :=
-  match req with
-  | .list (.atom "ops-graph" :: ops) => runGraphOps ops
-  | .list (.atom "ops-vars" :: ops) => runVarsOps ops
-  | .list [.atom "ping"] => .atom "pong"
-  | _ => .list [.atom "bad-request"]
+structure DState where
+  tree : Tree := default
 
-partial def loop (hin hout : IO.FS.Stream) : IO Unit := do
+def handle (st : DState) (req : Sexp) : DState × Sexp :=
+  match req with
+  | .list (.atom "ops-graph" :: ops) => (st, runGraphOps ops)
+  | .list (.atom "ops-vars" :: ops) => (st, runVarsOps ops)
+  | .list [.atom "set-tree", t] =>
+    match Tree.ofSexp t with
+    | some tr => ({ st with tree := tr }, .list [.atom "ok", Sexp.ofNat tr.nodes.size])
+    | none => (st, .list [.atom "bad-request"])
+  | .list (.atom "fn" :: rest) => (st, handleFn st.tree rest)
+  | .list [.atom "ping"] => (st, .atom "pong")
+  | _ => (st, .list [.atom "bad-request"])
+
+partial def loop (hin hout : IO.FS.Stream) (st : DState) : IO Unit := do
   let line ← hin.getLine
   if line.isEmpty then return ()
-  let out := match Sexp.parse line with
-    | some req => (handle req).toStr
-    | none => "(bad-sexp)"
+  let (st', out) := match Sexp.parse line with
+    | some req => let (s, r) := handle st req; (s, r.toStr)
+    | none => (st, "(bad-sexp)")
   hout.putStrLn out
   hout.flush
-  loop hin hout
+  loop hin hout st'
 
 def main : IO Unit := do
-  loop (← IO.getStdin) (← IO.getStdout)
+  loop (← IO.getStdin) (← IO.getStdout) {}
